@@ -788,17 +788,22 @@ class EvolutionSuperOperator(SuperOperator, TimeDependent, Saveable):
                 #
                 if isinstance(time, TimeAxis):
                     ntime = time
+                    tvals = time.data
                 else:
                     length = len(time)
                     dt = time[1]-time[0]
                     t0 = time[0]
                     ntime = TimeAxis(t0, length, dt)
+                    # the superoperator is taken at the times as submitted;
+                    # times reconstructed from the first two of them can
+                    # fall below a point of the time axis by rounding
+                    tvals = time
                 
                 rhot = ReducedDensityMatrixEvolution(timeaxis=ntime,
                                                      rhoi=target)
                 
                 k_i = 0
-                for tt in ntime.data:
+                for tt in tvals:
                     Ut = self.at(tt)
                     rhot.data[k_i,:,:] = numpy.tensordot(Ut.data, target.data)
                     k_i += 1
